@@ -16,7 +16,7 @@ def data_stream(props, name="data-cosim", tails=False):
     def stream(tier):
         R0 = C.rng("conc-data" + ("-tails" if tails else ""))
         res = Result(name)
-        n = {"quick": 250, "search": 1500, "thorough": 12000}[tier]
+        n = {"quick": 250, "search": 4000, "thorough": 12000}[tier]
         batch_lines, owners = [], []
         runs = []
         for i in range(n):
@@ -166,7 +166,7 @@ def data_fine_stream(props, name="data-fine-grained-exploration"):
     def stream(tier):
         R0 = C.rng("conc-data-fine")
         res = Result(name)
-        n = {"quick": 500, "search": 1500, "thorough": 8000}[tier]
+        n = {"quick": 500, "search": 4000, "thorough": 8000}[tier]
         import extract
         focus = sorted(extract.changed_functions())      # functions whose structure differs from the recorded skeleton
         res.distribution["focus_functions"] = len(focus)
